@@ -1040,6 +1040,9 @@ class TorConfig:
                 if v == DEFAULT_VALUE or v == 'auto':
                     try:
                         initial = defaults[name[:-5]]
+                        # one default line is a str, several are a list
+                        if not isinstance(initial, list):
+                            initial = [initial]
                     except KeyError:
                         default_key = '__{}'.format(name[:-5])
                         default = yield self.protocol.get_conf_single(default_key)
@@ -1047,6 +1050,9 @@ class TorConfig:
                             initial = []
                         else:
                             initial = [default]
+                elif isinstance(v, list):
+                    # several lines, e.g. two SocksPort entries
+                    initial = [self.parsers[rn].parse(x) for x in v]
                 else:
                     initial = [self.parsers[rn].parse(v)]
                 self.config[rn] = _ListWrapper(
@@ -1079,6 +1085,9 @@ class TorConfig:
                 parsed = self.parsers[rn].parse(v)
                 if parsed == [DEFAULT_VALUE]:
                     parsed = defaults.get(rn, [])
+                    # one default line is a str, several are a list
+                    if not isinstance(parsed, list):
+                        parsed = self.parsers[rn].parse(parsed)
                 self.config[rn] = _ListWrapper(
                     parsed, functools.partial(self.mark_unsaved, rn))
 
